@@ -158,6 +158,9 @@ class Earxml:
         return self.sn_cache.get(element, "")
     
     def follow_ref(self, start_element, element_name):
+        if start_element is None:
+            # nothing to start from: do not fall back to a search in the whole document
+            return None
         ref_element = self.find(element_name, start_element)
         if ref_element is None:
             return None
